@@ -126,6 +126,19 @@ func (g *Gen) fixedText(t, fname string, f *Field, mode Mode) []int {
 	for i := range out {
 		out[i] = g.textByte()
 	}
+	if c == 3 && mode == Wild && n >= 2 && g.R.Intn(2) == 0 {
+		// well-formed UTF-8 that is too long, with a multi-byte character lying across the end of the field
+		// (a writer that cuts "at a character boundary" emits fewer than the first N bytes)
+		out = out[:0]
+		for len(out) < n-1 {
+			out = append(out, 0x41+g.R.Intn(26))
+		}
+		ch := [][]int{{0xc3, 0xa9}, {0xe4, 0xb8, 0xad}, {0xf0, 0x9f, 0x98, 0x80}}[g.R.Intn(3)]
+		out = append(out, ch...)
+		out = append(out, 0xe4, 0xb8, 0xad)
+		g.hit(t, fname, "overlong-utf8-straddle")
+		return out
+	}
 	// interior pad bytes are legal and interesting
 	if l >= 3 && g.R.Intn(3) == 0 {
 		out[1+g.R.Intn(l-2)] = f.Pad
@@ -292,5 +305,102 @@ func (g *Gen) value(t string, mode Mode, depth int) map[string]any {
 			m[f.Name] = out
 		}
 	}
+	// two fields that agree: now and then a plain integer field is given the length of one of the message's texts / lists
+	// (an explicit length next to a length-prefixed text, a count next to a repeating group)
+	if g.R.Intn(3) == 0 {
+		var ints, seqs []*Field
+		for i := range td.Fields {
+			f := &td.Fields[i]
+			if _, isKey := keyOverride[f.Name]; isKey {
+				continue
+			}
+			switch {
+			case f.Kind == "int" && f.Go != "f32" && f.Go != "f64":
+				ints = append(ints, f)
+			case f.Kind == "str" || f.Kind == "list" || f.Kind == "objlist":
+				seqs = append(seqs, f)
+			}
+		}
+		if len(ints) > 0 && len(seqs) > 0 {
+			fi, fs := ints[g.R.Intn(len(ints))], seqs[g.R.Intn(len(seqs))]
+			n := 0
+			switch x := m[fs.Name].(type) {
+			case []int:
+				n = len(x)
+			case []any:
+				n = len(x)
+			}
+			if fs.Kind == "str" && n == 0 {
+				txt := make([]int, 1+g.R.Intn(11))
+				for i := range txt {
+					txt[i] = g.textByte()
+				}
+				m[fs.Name] = txt
+				n = len(txt)
+			}
+			b := make([]int, fi.W)
+			for i, x := fi.W-1, n; i >= 0; i-- {
+				b[i] = x & 0xff
+				x >>= 8
+			}
+			m[fi.Name] = b
+			g.hit(t, fi.Name, "equals-length-of-"+fs.Name)
+		}
+	}
 	return m
+}
+
+// AgreeVariants: for every (plain integer field, text / list field) pair of type t (at most max pairs) a canonical value in which the
+// integer equals the length of the text / list, which is not empty.
+func (g *Gen) AgreeVariants(t string, max int) []map[string]any {
+	td := S.Types[t]
+	var out []map[string]any
+	for i := range td.Fields {
+		fi := &td.Fields[i]
+		if fi.Kind != "int" || fi.Go == "f32" || fi.Go == "f64" {
+			continue
+		}
+		for j := range td.Fields {
+			fs := &td.Fields[j]
+			if fs.Kind != "str" && fs.Kind != "list" && fs.Kind != "objlist" {
+				continue
+			}
+			if len(out) >= max {
+				return out
+			}
+			var v map[string]any
+			n := 0
+			for try := 0; try < 20 && n == 0; try++ {
+				v = g.Value(t, Canon)
+				switch x := v[fs.Name].(type) {
+				case []int:
+					n = len(x)
+				case []any:
+					n = len(x)
+				}
+			}
+			if n == 0 {
+				continue
+			}
+			// the integer field must not be a discriminator key of this value
+			isKey := false
+			for k := range td.Fields {
+				if td.Fields[k].Kind == "body" && td.Fields[k].Key == fi.Name {
+					isKey = true
+				}
+			}
+			if isKey {
+				continue
+			}
+			b := make([]int, fi.W)
+			for q, x := fi.W-1, n; q >= 0; q-- {
+				b[q] = x & 0xff
+				x >>= 8
+			}
+			v[fi.Name] = b
+			g.hit(t, fi.Name, "equals-length-of-"+fs.Name)
+			out = append(out, v)
+		}
+	}
+	return out
 }
